@@ -142,6 +142,8 @@ func sprintfArgs(c *ssa.Call) string {
 }
 
 func checkC11(p *load.Program, r *kit.Report) {
+	importRules(p, r, "C10", "Save consolidates first and writes the index from the rebuilt branch list: every branch except the old root and the old tip must be reconnected, or it is missing from what Load restores", 1,
+		func(o *kit.Obligation) bool { return strings.HasPrefix(o.Construct, "consolidate/") }, "COVER-ALL")
 	r.Rule("TIE-KEEPS-FIRST", "Branches.Longest replaces its selection only for strictly more accumulated work: equal-work branches keep their order across Save and Load", 1)
 	checkLongestTiesKeepFirst(p, r, "TIE-KEEPS-FIRST")
 	importRules(p, r, "C09", "Save consolidates first: the branch objects it rebuilds must get their own hash maps, or a side branch is dropped from memory and from the index because its parent hash is `found` in the wrong branch", 3, nil, "FRESH-MAP")
